@@ -4,7 +4,7 @@ import json, os
 V = os.path.dirname(os.path.dirname(os.path.abspath(__file__)))
 NOTE_COMMON = ('Trusted: CBMC 6.11 (front end, DFCC, bit-blasting, MiniSat/kissat), CPROVER memcpy/memset/malloc models, '
                'spec/wire_spec.json + spec/vp_spec.h as the statement of intent, goto-cc (GCC mode) in place of gcc. '
-               'Enum field ids compared inside verified code restricted to < 2^31. ')
+               'Identifier types of the five legacy wrapper pairs compiled as unsigned int under the guarded hook (all 2^32 identifiers covered). ')
 CHECKS = {
  'C01': ('proof', 'Every getter / GetField of all 23 formats is enforced against a contract whose postcondition is the independent wire table (result == bits [s,s+n) MSB-first, full 64-bit compare, assigns nothing), with Avtp_GetField replaced by its contract K_get; K_get itself is enforced on the real loop with a loop contract for every accepted descriptor and every buffer; meta-lemmas tie the closed form to the wording of the property.', '§4.1 §4.3 §5 C01',
          NOTE_COMMON, 'CBMC code contracts (DFCC enforce/replace) + loop contract on Avtp_GetField'),
@@ -41,8 +41,8 @@ CHECKS = {
  'C10': ('other', 'BOUNDED stand-in, not a proof: packer, counter and unpacker are enforced against their contracts for lists of at most 3 (quick) / 5 (thorough) strings, every string length symbolic 0..65535, requested counts greater/equal/smaller than the packed count, exact-extent source and destination buffers, loops unwound with unwinding assertions; plus the type-level fact that the counter\'s return type carries every possible count. Prefix-sum offsets cannot be expressed in CBMC loop invariants without quantifiers.', '§5 C10',
          NOTE_COMMON + 'Bound on the number of strings; lists longer than the bound are not covered.', 'CBMC code contracts with bounded unwinding (unwinding assertions)'),
 
- 'C18': ('other', 'Partial: the receive paths of the ACF-CAN, AAF and CVF listeners (#included unmodified) are enforced against contracts for ANY datagram and recv result: every pointer/bounds obligation, termination (loop variant for the ACF loop), return value in {0,-1} with -1 only if a system call failed (ghost set by the trusted environment contracts), sample/NAL queue stays well formed; helpers (is_valid_packet, schedule_sample, schedule_nal, get_h264_data_len, get_presentation_time, arm_timer) each carry and are enforced against their own contract and are replaced by it in their callers; library getters are replaced by their contracts, whose exact-extent preconditions turn a length field that reaches past the datagram into a failed call-site obligation. The hello-world, ACF-VSS and CRF listeners and the timeout() paths are NOT under contract.', '§5 C18',
-         NOTE_COMMON + 'Trusted contracts for recv / write / clock_gettime / timerfd_settime / malloc / memcpy; printf("%s") over-reads and stale-byte reads are invisible to CBMC.', 'CBMC code contracts on the example receive functions + loop contract'),
+ 'C18': ('other', 'The receive paths of ALL SIX example listeners (#included unmodified) are enforced against contracts for ANY datagram and recv result: every pointer/bounds obligation, termination (loop variants for the ACF-CAN message loop and the CRF media-clock search), the listener gives up only if a system call failed (ghost set by the trusted environment contracts), sample / NAL / timestamp queues stay well formed. ACF-CAN, AAF, CVF, CRF: each receive function and helper carries its own contract, is enforced against it and replaced by it in its callers. hello-world (GPC) and ACF-VSS: the receive code is the body of main()\'s while(1); it is closed by a loop contract (one iteration from an arbitrary state of all locals and the buffer) and printf string conversions are checked by an executable model. Library getters are replaced by their contracts, whose exact-extent preconditions turn a length field that reaches past the datagram into a failed call-site obligation. Bounded / assumed parts, stated in the evidence: CRF mclk_dequeue_ts is enforced on queues of depth 1..2 and the induction over loop iterations for the queue abstraction is by hand; fallback obligations (only used when the code was restructured so that a contract no longer attaches) are bounded.', '§5 C18 §13',
+         NOTE_COMMON + 'Trusted contracts for recv / write / clock_gettime / timerfd_settime / malloc / memcpy; executable printf model; timeout()/tx paths, poll loops and socket set-up are not under contract; stale-byte reads are invisible to CBMC.', 'CBMC code contracts on the example receive functions + loop contracts (message loop, receive loops of main, media-clock search)'),
  'C19': ('other', 'Talker: prepare_acf_packet (#included unmodified) is enforced against the ACF-CAN reference encoding of the input frame (type, length, pad, RTR/EFF/BRS/FDF/ESI, identifier, data, pad bytes, returned byte count) for every classic/FD frame - a proof. Listener: BOUNDED stand-in - the real listener and library are model-checked on the reference encoding (written from the oracle, not the library) of 1..2 (quick) / 1..3 (thorough) symbolic frames per packet, checking that exactly those frames reach the CAN socket with identical id, flags, length and data. The talker main loop (length accumulation, socket I/O) is not under contract.', '§5 C19',
          NOTE_COMMON + 'recv/write stubs, bounded memcpy stand-in, frames per packet bounded.', 'CBMC code contract (talker builder) + bounded model checking (listener)'),
 }
@@ -57,8 +57,8 @@ def main(extra_checks=None, extra_na=None):
     m = {
      'version': 1,
      'setup_cmd': 'python3 run/vp.py env',
-     'hooks': {'guard': 'COVESA_OPEN1722_VERIF', 'enable': 'goto-cc -DCOVESA_OPEN1722_VERIF (no source hooks exist: contracts are attached to re-declarations in /verif/contracts and loop contracts come from /verif/loops via --loop-contracts-file)',
-               'baseline_off_cmd': 'cmake -G Ninja -DUNIT_TESTING=on -B /repo/_build -S /repo && cmake --build /repo/_build && ctest --test-dir /repo/_build -j8 --timeout 900', 'source_commits': [], 'add_only': True},
+     'hooks': {'guard': 'COVESA_OPEN1722_VERIF', 'enable': 'goto-cc -DCOVESA_OPEN1722_VERIF (one source hook: under the guard the five identifier typedefs compared inside the legacy wrappers are unsigned int, as GCC treats them; contracts are attached to re-declarations in /verif/contracts and loop contracts come from /verif/loops and run/*.py via --loop-contracts-file)',
+               'baseline_off_cmd': 'cmake -G Ninja -DUNIT_TESTING=on -B /repo/_build -S /repo && cmake --build /repo/_build && ctest --test-dir /repo/_build -j8 --timeout 900', 'source_commits': ['b3e9c34'], 'add_only': True},
      'engines': [{'name': 'cbmc-contracts', 'path': 'run/vp.py', 'serves_properties': sorted(checks), 'kind_free_text': 'CBMC 6.11 code contracts (DFCC): per-function enforce, callee replace, loop contracts'}],
      'checks': [], 'not_applicable': [],
      'notes': 'See DESIGN.md. Genuine defects repaired in /repo are listed in known_findings.json (fixed:).'}
